@@ -44,11 +44,15 @@ CLAIMED["C20"] = dict(
 )
 
 CLAIMED["C19"] = dict(
-    text="Bounded only (labelled exploration, nothing counted as proved): toposort_all and toposort are run on every digraph with self-loops on <= 3 vertices "
-         "(<= 4 in the thorough tier) and on random digraphs up to 7 vertices and compared with permutation filtering (multiset equality, so repetitions are seen).",
-    note="No contract is discharged: the invariant relates in-degrees to the cardinality of the set of unprocessed predecessors, out of reach of the SMT encoding "
-         "(DESIGN.md C19). The check is a runtime stand-in with a stated bound.",
-    technique="bounded stand-in for a function outside the verifier's reach (runtime oracle comparison, stated bound)",
+    text="Single-ordering routine: unbounded proof from the real AST of toposort (Kahn's algorithm) - a returned list contains every vertex exactly once with every edge "
+         "forward, and None is returned only if no sequence at all is a topological ordering (ghost parameter = arbitrary candidate ordering; impossibility lemma by "
+         "induction) - relative to four ASSUMED first-order facts about a ghost counting function (in-degree = number of predecessors not yet output), two ASSUMED pigeonhole "
+         "lemmas about len(dict) and collections.deque modelled as a sequence. All-orderings routine (each ordering exactly once, none on a cycle): bounded only - toposort_all "
+         "and toposort are run on every digraph with self-loops on <= 3 vertices (<= 4 thorough) and on random digraphs up to 7 vertices and compared with permutation "
+         "filtering (multiset equality, so repetitions are seen). Level stays exploration because half of the property is bounded.",
+    note="Trusted: pyvc encoding; z3/cvc5; the assumed counting facts / pigeonhole lemmas / deque model (each evaluated on all digraphs <= 3 (4) vertices by the stand-in "
+         "toposort:counting-axioms); precondition: successors are keys of the dict. toposort_all / _toposort_all_bt are not discharged (DESIGN.md 10.6).",
+    technique="contract-based deductive verification of toposort (sidecar contract, loop invariants, ghost state, inductive lemma; z3/cvc5) + bounded stand-in for toposort_all (runtime oracle comparison, stated bound)",
 )
 
 CLAIMED["C06"] = dict(
